@@ -38,6 +38,9 @@ JudgeShipped(k) ==
                 [kind |-> "mis", prop |-> "C17", field |-> "shipped-grammar-generation", id |-> k, want |-> "silent -strict generation that compiles", got |-> x.g])
         ELSE LET o == x.o
                  oks == {o.ok[n] : n \in DOMAIN o.ok} dgs == {o.digest[n] : n \in DOMAIN o.digest} pns == {o.panic[n] : n \in DOMAIN o.panic} IN
+             \* C13: no panic on any input (arbitrary bytes included), whatever the option set
+             If(pns # {""}, [kind |-> "mis", prop |-> "C13", field |-> "shipped-parser-panics", id |-> k, want |-> "nil or a parse error",
+                             got |-> [grammar |-> o.grammar, input |-> o.input, inputkind |-> o.kind, panic |-> o.panic]]) \o
              If(Cardinality(oks) # 1 \/ Cardinality(dgs) # 1 \/ pns # {""},
                 [kind |-> "mis", prop |-> "C17", field |-> "shipped-parsers-disagree", id |-> k, want |-> "same verdict and tokens under all option sets",
                  got |-> [grammar |-> o.grammar, input |-> o.input, inputkind |-> o.kind, ok |-> o.ok, digest |-> o.digest, panic |-> o.panic]])) \o
